@@ -147,6 +147,18 @@ theorem eqOther_eq (c o : Coll) (ho : o.tag ≠ .track) : Src.Track.eqOther a b 
   · rfl
   · exact absurd ht ho
 
+/-- the `==` of member lists of `Model/Track.lean` is the one of `Model/Collection.lean` (C18's `listEq`) … -/
+theorem sameShapes_eq_listEq : ∀ (xs ys : List Shape), sameShapes xs ys = GV.Coll.listEq xs ys
+  | [], [] => rfl
+  | [], _ :: _ => rfl
+  | _ :: _, [] => rfl
+  | x :: xs, y :: ys => by simp only [sameShapes, GV.Coll.listEq, sameShapes_eq_listEq xs ys]
+
+/-- … so this unit's model of `Track.__eq__` is C18's `eqTrack` (tied to the code by the `list-eq` stream of C18) -/
+theorem eq_eq_eqTrack (c o : Coll) : Track.eq c o = GV.Coll.eqTrack c o := by
+  unfold Track.eq GV.Coll.eqTrack
+  rw [sameShapes_eq_listEq]
+
 theorem sameShapes_refl : ∀ l : List Shape, sameShapes l l = true
   | [] => rfl
   | x :: xs => by simp [sameShapes, sameOrEq, sameShapes_refl xs]
